@@ -213,15 +213,13 @@ def main(argv):
             meta[cid] = {"kind": "ALBIG", "line": line}
         # staged 16-bit version wrap (the _refuted witness of Properties_C14.v) and controls that must not wrap
         for split in range(0, 8):
-            for pushes in (65536, 65535, 65537, 300):
+            for pushes in (65536, 65535, 65537, 300) + ((131072, 131071) if thorough else ()):
                 cid = "wrap%d.%d" % (pushes, split)
                 line = "%s WRAP %d %d" % (cid, pushes, split)
                 lines.append(line)
                 meta[cid] = {"kind": "WRAP", "pushes": pushes, "split": split, "line": line}
     chk.log("%d programs, %d implementation runs, %d model explorations" % (len(progs), len(lines), len(mlines)))
     line_of = {x.split(None, 1)[0]: x for x in lines}
-    if os.environ.get("C14_DUMP"):
-        open(os.environ["C14_DUMP"], "w").write("".join(x + "\n" for x in lines))
     impl_out = chk.run_cases(impl, lines, timeout=900) if impl else {}
     model_sets = {}
     states = trans = 0
@@ -267,7 +265,7 @@ def main(argv):
         mon = dict(x.split("=") for x in parts[2].split())
         if m["kind"] == "WRAP":
             if mon.get("unique") != "1":
-                if m["pushes"] == 65536:
+                if m["pushes"] % 65536 == 0:
                     nwrapdup += 1
                     chk.violate("version-wrap-aba-u16",
                                 "IdAllocator<uint16_t>: an allocate() pre-empted between its loads and its CAS while exactly "
